@@ -238,6 +238,16 @@ let s1_case (c : case) : unit =
                 machine goes on judging what they mean (C01 C02 C03 C17 are about the bytes, whatever encoder wrote them) *)
              (match lex_one (bytes_of_hex fin) with
               | Some (t, []) -> out_toks := t :: !out_toks; ref_advance t post_stk post_memo
+              | _ when fin = "-" ->
+                  (* nothing stands in the output for this step: the reference machine does not move, so the simulated
+                     state must still mirror the SAME reference state (C17) *)
+                  (match !r with
+                   | Some r0 when safe ->
+                       let sorted_rm = List.sort (fun (a, _) (b, _) -> compare (int_of_n a) (int_of_n b)) r0.rmemo in
+                       if not (invb { !s with stk = post_stk; memo = post_memo } { r0 with rmemo = sorted_rm }) then
+                         prop "C17" (Printf.sprintf "step=%d (chosen %s) left no bytes in the output but the simulated state became %s/%s"
+                                       !step chosen (string_of_stack post_stk) (string_of_memo post_memo))
+                   | _ -> ())
               | _ -> r := None)
          | S1_envelope t -> diff !step "envelope" (Printf.sprintf "chosen=%s emitted=%s" chosen (tok_to_string t));
              resync fin post_stk post_memo
@@ -280,6 +290,8 @@ let s1_case (c : case) : unit =
          c.id !target !nbody !ntail (List.length all) (List.length out) !saw_mark !saw_memo !muts !rewrites !framed safe (int_of_n (vnum v))
    | "err" :: rest -> prop "C09" ("Err: " ^ String.concat " " rest)
    | "panic" :: rest -> prop "C09" ("panic: " ^ String.concat " " rest)
+   | "hang" :: rest -> prop "C09" ("the generation call does not terminate: " ^ String.concat " " rest)
+   | "skipped" :: _ -> ()
    | _ -> diff 0 "result" "no RESULT line");
   if !diffs = 0 then Printf.printf "OK %s\n" c.id
 
@@ -364,6 +376,7 @@ let s2_compare (c : case) (report : bool) : bool =
   let model = generate_internal (the_env ()) (fun l -> l) cfg (source_of (Hashtbl.find h "src")) in
   match model, words result with
   | Panic w, ("panic" :: _) -> ignore w; true
+  | _, ("hang" :: _ | "skipped" :: _) -> true      (* reported by S1 as a C09 violation; nothing to compare *)
   | Panic w, _ -> diff "panic" (Printf.sprintf "model panics (code %d), implementation: %s" (int_of_n w) result); false
   | Ok _, ("panic" :: _ | "err" :: _) -> diff "panic" ("implementation fails, model returns a pickle: " ^ result); false
   | Ok g, ["ok"; outhex] ->
@@ -661,6 +674,7 @@ let s5_case (c : case) : unit =
     | _ -> ()) impl;
   List.iter (fun a -> if String.length a > 12 && String.sub a 0 12 = "RESULT panic" || (String.length a > 10 && String.sub a 0 10 = "RESULT err") then
                 Printf.printf "PROP %s C09 fail %s\n" c.id a) impl;
+  List.iter (fun l -> if String.length l > 11 && String.sub l 0 11 = "RESULT hang" then Printf.printf "PROP %s C09 fail %s\n" c.id l) c.lines;
   if !ok then Printf.printf "OK5 %s calls=%d\n" c.id (List.length calls)
 
 
@@ -883,7 +897,7 @@ let () =
                       if framed <> has_frame then
                         Printf.printf "PROP %s C12 fail FRAME coin %b but the output is %sframed\n" c.id framed (if has_frame then "" else "un")
                   | _ -> ())
-             | "RESULT" :: ("panic" | "err") :: rest -> Printf.printf "PROP %s C09 fail %s\n" c.id (String.concat " " rest)
+             | "RESULT" :: ("panic" | "err" | "hang") :: rest -> Printf.printf "PROP %s C09 fail %s\n" c.id (String.concat " " rest)
              | _ -> ()) c.lines
          with e -> Printf.printf "DIFF %s step=0 driver-exception %s\n" c.id (Printexc.to_string e))) (read_cases path)
   | [_; "front"; path] ->
